@@ -59,3 +59,34 @@ fn k_na_text_21() {
     let r = parsers::parse_6bit_ascii((&bytes[..], 0), 21 * 6);
     assert!(r.is_err());
 }
+
+fn ref_ascii6(v: u8) -> u8 { if v < 32 { v + 64 } else { v } }
+fn ref_six(bytes: &[u8], q: usize) -> u8 {
+    let w = ((bytes[q / 8] as u16) << 8) | bytes[q / 8 + 1] as u16;
+    ((w >> (10 - (q % 8))) & 0x3f) as u8
+}
+
+/// C18 / C13 (bounded): the no-allocator text decoding agrees with the reference (and hence with the std build) on every
+/// 2-character field at every bit offset
+#[kani::proof]
+#[kani::unwind(5)]
+fn k_na_text_2() {
+    let bytes: [u8; 4] = kani::any();
+    let off: usize = kani::any();
+    kani::assume(off < 8);
+    let c0 = ref_ascii6(ref_six(&bytes, off));
+    let c1 = ref_ascii6(ref_six(&bytes, off + 6));
+    let chars = [c0, c1];
+    let mut a = 0usize;
+    while a < 2 && chars[a] == b' ' { a += 1; }
+    let mut b = 2usize;
+    while b > a && chars[b - 1] == b'@' { b -= 1; }
+    while b > a && chars[b - 1] == b' ' { b -= 1; }
+    let r = parsers::parse_6bit_ascii((&bytes[..], off), 12);
+    let ((_rest, roff), text) = r.unwrap();
+    assert!(roff == (off + 12) % 8);
+    let tb = text.as_bytes();
+    assert!(tb.len() == b - a);
+    if b - a >= 1 { assert!(tb[0] == chars[a]); }
+    if b - a >= 2 { assert!(tb[1] == chars[a + 1]); }
+}
